@@ -180,6 +180,15 @@ def databases():
         "G*68.002": {"mutations": [["GP", "e2-"], C52, S45]},
         "G*5": {"mutations": [["G", "deletion"]]},
     }))
+    dbs.append(("two right fusions and two partial deletions that share a configuration", {
+        "G*1": {"mutations": []},
+        "G*2": {"mutations": [C20, S45]},
+        "G*36": {"mutations": [["GP", "e2+"], C20]},
+        "G*57": {"mutations": [["GP", "e2+"], C25]},
+        "G*7": {"mutations": [["G", "deletion:e1"], S45]},
+        "G*8": {"mutations": [["G", "deletion:e1"], C52]},
+        "G*5": {"mutations": [["G", "deletion"]]},
+    }))
     dbs.append(("partial deletions are the only structural alleles", {
         "G*1": {"mutations": []},
         "G*2": {"mutations": [C20, S45]},
@@ -397,6 +406,11 @@ def check_catalogue(res, f, label, yml, me, genome):
         hit = [c for c in me.cn_configs.values() if [dict(x) for x in c.cn] == want]
         if not hit:
             bad("C09.R5", f"{tag}: no configuration has the copy vector of {n} ({arg}): expected {want}")
+        # ... and the major alleles that hold this database allele are assigned that configuration
+        for mj in mj_names:
+            conf_ = me.cn_configs.get(me.alleles[mj].cn_config)
+            if conf_ is not None and [dict(x) for x in conf_.cn] != want:
+                bad("C09.R5", f"{tag}: {n} ({arg}) is held by major {mj}, whose configuration {me.alleles[mj].cn_config} has the copy vector {[dict(x) for x in conf_.cn]}, expected {want}")
     # (e3) an allele has gene copies exactly in the regions its configuration keeps (what the later stages ask before placing a variant)
     for mj, al in me.alleles.items():
         conf = me.cn_configs.get(al.cn_config)
@@ -503,6 +517,9 @@ def run(repo, res):
 
 
 MUTANTS = [
+    dict(name="R5 second allele of a shared left-fusion configuration falls back to the default structure", module="gene", expect="C09.R5",
+         old="                inverse_cn[key] = a\n            else:\n                self.cn_configs[inverse_cn[key]].alleles.add(a)\n        # Deletion is a special kind of left fusion",
+         new="                inverse_cn[key] = a\n            else:\n                pass\n        # Deletion is a special kind of left fusion"),
     dict(name="R5 partial deletions do not switch copy-number calling on (seeded X1_4 shape)", module="gene", expect="C09.R5",
          old="deletion_allele or len(fusions_left) or len(fusions_right) or len(custom_cn)", new="deletion_allele or len(fusions_left) or len(fusions_right)"),
     dict(name="R6 retained regions judged by the main gene's vector only (seeded C09_b1 shape)", module="gene", expect="C09.R6",
